@@ -406,6 +406,19 @@ def unit_clean_generated(ctx, n_cases, nmax):
         spec = {"family": "ldpc", "H": rows}
         for dname, opts in (("bp", {"iters": 10}), ("bp", {"iters": 5, "arctanh": False}), ("minsum", {"iters": 10}), ("minsum", {"iters": 10, "normalized": True})):
             clean_case(ctx, spec, dname, {**opts, "mags": [0.5, 5.0, 50.0]}, ctx.seed)
+        # the same code described by a check matrix with REDUNDANT rows in the middle (a repeated check, a sum of two checks): the encoder
+        # derives its generator from H, so the decoders must still return the message from clean inputs
+        if len(rows) >= 2:
+            dup = [list(r) for r in rows[:1]] + [list(rows[0])] + [list(r) for r in rows[1:]]
+            mid = len(rows) // 2
+            summed = [list(r) for r in rows[:mid]] + [[a ^ b for a, b in zip(rows[0], rows[-1])]] + [list(r) for r in rows[mid:]]
+            for red in (dup, summed):
+                if any(sum(col) == 0 for col in zip(*red)) or any(sum(r) == 0 for r in red):
+                    continue  # every variable sits in a check and every check involves a variable, as in the other generated matrices
+                rspec = {"family": "ldpc", "H": red}
+                for dname, opts in (("bp", {"iters": 10}), ("minsum", {"iters": 10})):
+                    clean_case(ctx, rspec, dname, {**opts, "mags": [0.5, 5.0, 50.0]}, ctx.seed)
+                ctx.cls("ldpc_redundant_rows")
     draw_cases(sparse_strategy(nmax), n_cases, ctx.seed * 131 + 1, f)
     ctx.sample({"generator": "sparse H, n<=%d" % nmax})
 
